@@ -5,7 +5,7 @@
 (* Sig_structure of the received bytes), C03 (verdict = cryptographic      *)
 (* validity over the received bytes + prechecks), C09 (re-encoding).       *)
 (***************************************************************************)
-EXTENDS CoseStruct, Json
+EXTENDS CoseStruct, Json, TraceKit
 CONSTANT Prop
 Tr == ndJsonDeserialize("tr.ndjson")
 VARIABLE l
@@ -62,9 +62,9 @@ Fails(e) ==
   CrossCheck(e) \cup
   (CASE Prop = "C07" -> C07Fails(e) [] Prop = "C02" -> C02Fails(e) [] Prop = "C03" -> C03Fails(e) [] Prop = "C09" -> C09Fails(e))
 
-TInit == l = 1
+TInit == l = 1 /\ KitInit
 TNext == /\ l <= Len(Tr) /\ l' = l + 1
-         /\ LET f == Fails(Tr[l]) IN f = {} \/ PrintT(<<"REJECT", l, f>>)
+         /\ Note(l, Fails(Tr[l]))
 TSpec == TInit /\ [][TNext]_l
-Accepted == TLCGet("stats").diameter - 1 = Len(Tr)
+Accepted == KitDone(Len(Tr))
 =============================================================================
